@@ -11,10 +11,13 @@ import (
 	"path/filepath"
 	"strings"
 	"sync"
+	"sync/atomic"
 	"time"
 )
 
 const maxQueryBytes = 4 << 20
+
+var querySerial int64
 
 func (fc *FnCtx) ancestors(b *PBlock) []*PBlock {
 	seen := map[*PBlock]bool{}
@@ -38,13 +41,23 @@ func (fc *FnCtx) ancestors(b *PBlock) []*PBlock {
 	return out
 }
 
-func blockAssumes(b *PBlock, upto int) string {
+// lite queries: quantified assumptions are left out (sound: fewer hypotheses);
+// used as a cheap first attempt for every obligation.
+
+func quantified(s string) bool {
+	return strings.Contains(s, "(forall ") || strings.Contains(s, "(exists ")
+}
+
+func blockAssumes(b *PBlock, upto int, lite bool) string {
 	var parts []string
 	for i, c := range b.Cmds {
 		if upto >= 0 && i >= upto {
 			break
 		}
 		if c.T.S == "true" {
+			continue
+		}
+		if lite && quantified(c.T.S) {
 			continue
 		}
 		parts = append(parts, c.T.S)
@@ -59,7 +72,7 @@ func blockAssumes(b *PBlock, upto int) string {
 }
 
 // pathText: definitions of in_/out_ for the ancestors of b.
-func (fc *FnCtx) pathText(b *PBlock) string {
+func (fc *FnCtx) pathText(b *PBlock, lite bool) string {
 	var sb strings.Builder
 	for _, x := range fc.ancestors(b) {
 		in := "true"
@@ -90,7 +103,7 @@ func (fc *FnCtx) pathText(b *PBlock) string {
 		}
 		fmt.Fprintf(&sb, "(define-fun in_%d () Bool %s)\n", x.ID, in)
 		if x != b {
-			fmt.Fprintf(&sb, "(define-fun out_%d () Bool (and in_%d %s))\n", x.ID, x.ID, blockAssumes(x, -1))
+			fmt.Fprintf(&sb, "(define-fun out_%d () Bool (and in_%d %s))\n", x.ID, x.ID, blockAssumes(x, -1, lite))
 		}
 	}
 	return sb.String()
@@ -178,7 +191,12 @@ func declName(d string) string {
 	return d
 }
 
-func (ob *Obligation) Query(negate bool) string {
+// QueryLite: the same query without quantified assumptions and axioms.
+func (ob *Obligation) QueryLite() string { return ob.query(true, true) }
+
+func (ob *Obligation) Query(negate bool) string { return ob.query(negate, false) }
+
+func (ob *Obligation) query(negate, liteMode bool) string {
 	fc := ob.fc
 	e := fc.eng
 	var body strings.Builder
@@ -186,15 +204,19 @@ func (ob *Obligation) Query(negate bool) string {
 		body.WriteString(d)
 		body.WriteByte('\n')
 	}
-	body.WriteString(fc.pathText(ob.Block))
+	body.WriteString(fc.pathText(ob.Block, liteMode))
 	fmt.Fprintf(&body, "(assert in_%d)\n", ob.Block.ID)
-	if pre := blockAssumes(ob.Block, ob.Index); pre != "true" {
+	if pre := blockAssumes(ob.Block, ob.Index, liteMode); pre != "true" {
 		fmt.Fprintf(&body, "(assert %s)\n", pre)
 	}
 	if negate {
 		fmt.Fprintf(&body, "(assert (not %s))\n", ob.Cond.S)
 	}
 	text := body.String()
+	if liteMode {
+		gd := e.globalDecls(text)
+		return e.header() + gd + text + "(check-sat)\n"
+	}
 	ax := e.relevantAxioms(text)
 	gd := e.globalDecls(text + ax)
 	return e.header() + gd + ax + text + "(check-sat)\n(get-model)\n"
@@ -267,7 +289,11 @@ func (e *Engine) Discharge(ob *Obligation) {
 		ob.Model = fmt.Sprintf("query of %d bytes exceeds the %d byte cap", len(q), maxQueryBytes)
 		return
 	}
-	file := filepath.Join(e.ScratchDir, mangle(ob.Name)+".smt2")
+	// (several obligations can share a name - the automatic invariant of a loop
+	// with many back edges - so the file name carries a serial number: two
+	// workers writing the same file made a solver read a half-written query)
+	serial := atomic.AddInt64(&querySerial, 1)
+	file := filepath.Join(e.ScratchDir, fmt.Sprintf("%s.%d.smt2", mangle(ob.Name), serial))
 	if err := os.WriteFile(file, []byte(q), 0644); err != nil {
 		ob.Status = "unknown"
 		ob.Model = err.Error()
@@ -275,38 +301,35 @@ func (e *Engine) Discharge(ob *Obligation) {
 	}
 	ob.SMTPath = file
 	ctx := context.Background()
-	// stage 1: z3-new alone, short
-	t1 := 6
-	if e.Timeout < t1 {
-		t1 = e.Timeout
+	// stage 0: without quantified assumptions (cheap; sound - fewer hypotheses).
+	// Most range-loop, bounds and path obligations are decided here, before
+	// the quantifier-heavy context can slow a solver down.
+	if !quantified(ob.Cond.S) {
+		lite := ob.QueryLite()
+		lfile := filepath.Join(e.ScratchDir, fmt.Sprintf("%s.%d.lite.smt2", mangle(ob.Name), serial))
+		if os.WriteFile(lfile, []byte(lite), 0644) == nil {
+			a0 := runSolver(ctx, solvers[0], lfile, 1, e.Seed)
+			if a0.answer == "unsat" {
+				ob.Answers[a0.solver+"/qf"] = a0.answer
+				ob.Status, ob.Solver, ob.Ms = "discharged", a0.solver, a0.ms
+				ob.SMTPath = lfile
+				return
+			}
+			ob.Ms += a0.ms
+		}
 	}
-	a := runSolver(ctx, solvers[0], file, t1, e.Seed)
-	ob.Answers[a.solver] = a.answer
-	ob.Ms = a.ms
-	if a.answer == "unsat" {
-		ob.Status, ob.Solver = "discharged", a.solver
-		return
-	}
-	if a.answer == "error" {
-		ob.Model = a.output
-	}
+	// stage 1: the three solvers race on the full query (the first "unsat"
+	// wins and the others are cancelled).  Obligations that one solver cannot
+	// do - string-heavy ones for z3, some quantified ones for cvc5 - are
+	// decided by another in well under a second instead of after a timeout.
 	var satAns *solverAnswer
-	if a.answer == "sat" {
-		satAns = &a
-	}
-	// stage 2: all three in parallel with the full timeout
-	if satAns == nil {
+	{
 		ctx2, cancel := context.WithCancel(ctx)
 		ch := make(chan solverAnswer, len(solvers))
-		n := 0
-		for i, sp := range solvers {
-			if i == 0 && e.Timeout <= t1 {
-				continue
-			}
-			n++
+		for _, sp := range solvers {
 			go func(sp solverSpec) { ch <- runSolver(ctx2, sp, file, e.Timeout, e.Seed) }(sp)
 		}
-		for i := 0; i < n; i++ {
+		for i := 0; i < len(solvers); i++ {
 			r := <-ch
 			ob.Answers[r.solver] = r.answer
 			if r.answer == "unsat" {
@@ -318,6 +341,10 @@ func (e *Engine) Discharge(ob *Obligation) {
 			if r.answer == "sat" && satAns == nil {
 				rr := r
 				satAns = &rr
+				// a model is an answer too: no need to wait for the others
+				ob.Ms += r.ms
+				cancel()
+				break
 			}
 			if r.answer == "error" && ob.Model == "" {
 				ob.Model = r.output
@@ -355,7 +382,7 @@ func (e *Engine) DischargeAll(obs []*Obligation, workers int) {
 // (vacuity guard).  Returns "sat", "unsat" or "unknown".
 func (e *Engine) Reachable(ob *Obligation) string {
 	q := ob.Query(false)
-	file := filepath.Join(e.ScratchDir, "reach_"+mangle(ob.Name)+".smt2")
+	file := filepath.Join(e.ScratchDir, fmt.Sprintf("reach_%s.%d.smt2", mangle(ob.Name), atomic.AddInt64(&querySerial, 1)))
 	os.WriteFile(file, []byte(q), 0644)
 	defer os.Remove(file)
 	a := runSolver(context.Background(), solvers[0], file, 3, e.Seed)
